@@ -430,3 +430,18 @@ PROPS = {
         "level_note": "Trusted: Lean kernel; the snapshot abstraction of the Go runtime / netlink (differentially validated in namespaces, not proved); fails closed when `unshare -n` is unavailable (component exits 3 -> correspondence violation).",
     },
 }
+
+# e2eapp: the real `sx socks | elastic | docker` binary against scripted servers in a private network namespace
+# (harness/cmd/sxdiff/e2eapp.go, Spec/AppRun.lean) serves five properties; what it adds to each level text:
+_E2EAPP = {
+    "C08": " End to end (e2eapp): the real commands with the real loggers against farms of scripted targets (ok / negative / refused / tarpit / garbage / SYN dropped; http and https; subnet, address-file and pairs-file modes; --exclude; default and larger exit delay; 250-500 failed probes within a second): the JSON records on stdout are the detecting targets once each and the error records on stderr are one per failed probe.",
+    "C09": " End to end (e2eapp): `sx socks -t T` (T given, or the default shown by --help) against a SYN-dropping address and a tarpit: the process ends within 4*T + exit delay + slack; records carry the probed address and port.",
+    "C10": " End to end (e2eapp): `sx elastic|docker` over http and https (self-signed) against scripted servers: records carry the probed scheme, address and port; with -t T given or left at the default shown by --help a target that never answers holds the run for at most T + exit delay + slack.",
+    "C15": " End to end (e2eapp): `--rate N/W` on the real socks / elastic / docker commands in all three target modes (subnet x ports, address file x ports, pairs file without ports), 1 and several workers: sorted first-connection times at the listeners obey (k-2-10)*floor(W/N) - 50 ms on every window (weaker than C15_sequential for one worker and than C15_wire + C15_any_set for several).",
+    "C18": " End to end (e2eapp): the rate written on the command line (`N/s`, `N/500ms`, `N/2s`; --rate and -r) is the rate observed at the listeners of real socks / elastic / docker runs.",
+}
+for _pid, _txt in _E2EAPP.items():
+    PROPS[_pid]["level_text"] += _txt
+PROPS["C08"]["assumptions"] = PROPS["C08"]["assumptions"] + [
+    "e2eapp demands printed records only at the default exit delay or larger (the property's own clause), with a handful of records per run"]
+
